@@ -6,6 +6,7 @@ flavour.
 """
 
 import abc
+from copy import copy
 from typing import Dict, List, Optional, Set, Tuple, Union
 
 from netqasm.lang import encoding
@@ -178,12 +179,16 @@ class NVSubroutineTranspiler(SubroutineTranspiler):
 
         add_no_op_at_end = False
 
-        for instr in new_commands:
+        for idx, instr in enumerate(new_commands):
             if (
                 isinstance(instr, core.BranchUnaryInstruction)
                 or isinstance(instr, core.BranchBinaryInstruction)
                 or isinstance(instr, core.JmpInstruction)
             ):
+                # Retarget a copy: the caller's instruction object may be listed more
+                # than once (or be used again), and must keep its own target
+                instr = copy(instr)
+                new_commands[idx] = instr
                 original_line = instr.line.value
                 if original_line == len(self._subroutine.instructions):
                     # There was a label in the original subroutine at the very end.
@@ -361,6 +366,8 @@ class NVSubroutineTranspiler(SubroutineTranspiler):
         for the circuit.
         """
         electron = self.get_unused_register()
+        # (work on a copy: the caller's instruction keeps its operands)
+        instr = copy(instr)
         carbon = instr.reg0
         set_electron = core.SetInstruction(
             lineno=instr.lineno, reg=electron, imm=Immediate(0)
@@ -452,6 +459,8 @@ class NVSubroutineTranspiler(SubroutineTranspiler):
         for the circuit.
         """
         electron = self.get_unused_register()
+        # (work on a copy: the caller's instruction keeps its operands)
+        instr = copy(instr)
         carbon = instr.reg0
         set_electron = core.SetInstruction(
             lineno=instr.lineno, reg=electron, imm=Immediate(0)
